@@ -4,14 +4,14 @@
 # the patch is applied to the copy and the checks are run from the copy (path dependencies rewritten).
 # The scratch directory (with its build output) is removed by `tools/mutate_scratch.sh --clean`.
 set -u
-S=/root/verif-scratch-m
+S=${SCRATCH:-/root/verif-scratch-m}
 if [ "${1:-}" = "--clean" ]; then rm -rf $S; exit 0; fi
 patch=$(realpath "$1"); shift
 mkdir -p $S
 # cargo decides by mtime: a file that rsync puts back (old mtime) or tar extracts (commit time) would
   # look "not newer than the build" and a stale artifact would be reused: touch whatever changed
   rsync -ai --delete --exclude target --exclude .git /repo/ $S/repo/ | awk '/^>f/ {print $2}' | while read -r f; do touch "$S/repo/$f"; done
-rsync -a --delete --exclude 'target*' --exclude .git --exclude replays --exclude evidence --exclude seeded /verif/ $S/verif/
+rsync -a --delete --exclude 'target*' --exclude .git --exclude replays --exclude evidence --exclude seeded ${VERIF_SRC:-/verif}/ $S/verif/
 sed -i "s#\"/repo#\"$S/repo#g" $S/verif/harness/*/Cargo.toml
 if ! (cd $S/repo && patch -p1 --dry-run -s < "$patch" >/dev/null 2>&1); then echo "MUTANT $(basename $(dirname $patch))/$(basename $patch): does not apply"; exit 2; fi
 (cd $S/repo && patch -p1 -s < "$patch")
